@@ -1,16 +1,16 @@
 package main
 
-// C11 part 3: an in-process MOSN (real connHandler, listeners, proxy, bolt codec, cluster manager) in front of a scripted
-// bolt upstream.  One listener per scenario; the client sends a bolt request (optionally in two halves), the upstream
-// answers after a scripted delay (optionally in two halves); GracefulStopListener - the per-listener form of what SIGTERM
-// triggers - is invoked at an offset that sweeps the request's lifetime.  Observed: when Shutdown returned ("exit": the
-// stage manager closes the application right after), when the reply reached the client.
+// C11 part 3: an in-process MOSN (real connHandler, listeners, proxy, codecs, cluster manager) in front of scripted
+// upstreams, for bolt, HTTP/1.1 and HTTP/2.  One listener, cluster and upstream server per scenario; the client sends a
+// request in up to three parts (headers / half the body / the rest), the upstream answers after a scripted delay
+// (optionally in two halves); GracefulStopListener - the per-listener form of what SIGTERM triggers - is invoked at an
+// offset that sweeps the request's lifetime (headers sent, body half sent, waiting for upstream, response half written,
+// idle), on warmed-up (long-lived) and fresh (short-lived) connections.  Observed: when Shutdown returned ("exit": the
+// stage manager closes the application right after), when the reply reached the client, what a new client met inside
+// the drain window, what an idle keep-alive connection was told.
 
 import (
-	"encoding/binary"
-	"encoding/json"
 	"fmt"
-	"io"
 	"net"
 	"os"
 	"sync"
@@ -23,6 +23,8 @@ import (
 	"mosn.io/mosn/pkg/protocol/xprotocol"
 	"mosn.io/mosn/pkg/protocol/xprotocol/bolt"
 	"mosn.io/mosn/pkg/server"
+	_ "mosn.io/mosn/pkg/stream/http"
+	_ "mosn.io/mosn/pkg/stream/http2"
 	xstream "mosn.io/mosn/pkg/stream/xprotocol"
 	"mosn.io/mosn/pkg/types"
 	_ "mosn.io/mosn/pkg/upstream/cluster"
@@ -30,149 +32,11 @@ import (
 	. "vh/vhlib"
 )
 
-// ---- raw bolt v1 frames ----
-func boltRequest(id uint32, content []byte) []byte {
-	hdr := kv("service", "vh")
-	b := make([]byte, 22, 22+len(hdr)+len(content))
-	b[0], b[1] = 1, 1 // protocol code, request
-	binary.BigEndian.PutUint16(b[2:], 1)
-	b[4] = 1
-	binary.BigEndian.PutUint32(b[5:], id)
-	b[9] = 1
-	binary.BigEndian.PutUint32(b[10:], 10000) // timeout ms
-	binary.BigEndian.PutUint16(b[14:], 0)
-	binary.BigEndian.PutUint16(b[16:], uint16(len(hdr)))
-	binary.BigEndian.PutUint32(b[18:], uint32(len(content)))
-	b = append(b, hdr...)
-	return append(b, content...)
-}
-
-func boltResponse(id uint32, content []byte) []byte {
-	b := make([]byte, 20, 20+len(content))
-	b[0], b[1] = 1, 0
-	binary.BigEndian.PutUint16(b[2:], 2)
-	b[4] = 1
-	binary.BigEndian.PutUint32(b[5:], id)
-	b[9] = 1
-	binary.BigEndian.PutUint16(b[10:], 0) // status success
-	binary.BigEndian.PutUint16(b[12:], 0)
-	binary.BigEndian.PutUint16(b[14:], 0)
-	binary.BigEndian.PutUint32(b[16:], uint32(len(content)))
-	return append(b, content...)
-}
-
-func kv(k, v string) []byte {
-	b := make([]byte, 0, 8+len(k)+len(v))
-	l := make([]byte, 4)
-	binary.BigEndian.PutUint32(l, uint32(len(k)))
-	b = append(append(b, l...), k...)
-	binary.BigEndian.PutUint32(l, uint32(len(v)))
-	return append(append(b, l...), v...)
-}
-
-// readBoltFrame reads one frame; returns cmd type (1 request, 0 response), cmd code, request id, content.
-func readBoltFrame(c net.Conn) (typ byte, code uint16, id uint32, content []byte, err error) {
-	h := make([]byte, 20)
-	if _, err = io.ReadFull(c, h); err != nil {
-		return
-	}
-	typ = h[1]
-	code = binary.BigEndian.Uint16(h[2:])
-	id = binary.BigEndian.Uint32(h[5:])
-	var cl, hl, bl int
-	if typ == 0 { // response: 20 byte header
-		cl, hl, bl = int(binary.BigEndian.Uint16(h[12:])), int(binary.BigEndian.Uint16(h[14:])), int(binary.BigEndian.Uint32(h[16:]))
-	} else { // request: 22 byte header
-		h2 := make([]byte, 2)
-		if _, err = io.ReadFull(c, h2); err != nil {
-			return
-		}
-		h = append(h, h2...)
-		cl, hl, bl = int(binary.BigEndian.Uint16(h[14:])), int(binary.BigEndian.Uint16(h[16:])), int(binary.BigEndian.Uint32(h[18:]))
-	}
-	rest := make([]byte, cl+hl+bl)
-	if _, err = io.ReadFull(c, rest); err != nil {
-		return
-	}
-	content = rest[cl+hl:]
-	return
-}
-
-// scripted upstream: the request content is JSON {"up":ms,"gap":ms}: wait `up`, write the first half of the response,
-// wait `gap`, write the rest.
-type script struct {
-	Up  int `json:"up"`
-	Gap int `json:"gap"`
-}
-
-func startUpstream() (string, func()) {
-	ln := listenLocal()
-	go func() {
-		for {
-			c, err := ln.Accept()
-			if err != nil {
-				return
-			}
-			go func(c net.Conn) {
-				defer c.Close()
-				var wmu sync.Mutex
-				for {
-					typ, code, id, content, err := readBoltFrame(c)
-					if err != nil {
-						return
-					}
-					if typ != 1 || code != 1 {
-						continue // heartbeat etc.
-					}
-					var sc script
-					json.Unmarshal(content, &sc)
-					if os.Getenv("VH_TRACE") != "" {
-						fmt.Println("upstream got request", id, sc, time.Now().Format("05.000"), c.RemoteAddr())
-					}
-					go func() {
-						time.Sleep(time.Duration(sc.Up) * time.Millisecond)
-						if os.Getenv("VH_TRACE") != "" {
-							fmt.Println("upstream writes response", id, time.Now().Format("05.000"))
-						}
-						resp := boltResponse(id, []byte("ok"))
-						wmu.Lock()
-						defer wmu.Unlock()
-						if sc.Gap > 0 {
-							c.Write(resp[:11])
-							time.Sleep(time.Duration(sc.Gap) * time.Millisecond)
-							c.Write(resp[11:])
-						} else {
-							c.Write(resp)
-						}
-					}()
-				}
-			}(c)
-		}
-	}()
-	return ln.Addr().String(), func() { ln.Close() }
-}
-
-func toMap(v interface{}) map[string]interface{} {
-	m := map[string]interface{}{}
-	b, _ := json.Marshal(v)
-	json.Unmarshal(b, &m)
-	return m
-}
-
-type reqPlan struct {
-	T0   int `json:"t0"`   // ms after the scenario origin at which the first half of the request is sent
-	Recv int `json:"recv"` // gap between the two halves of the request (0: sent at once)
-	Up   int `json:"up"`   // upstream delay
-	Gap  int `json:"gap"`  // gap between the two halves of the upstream response
-	// observed
-	SentAt  int  `json:"sent_at"`  // ms after origin at which the client had written the whole request
-	ReplyAt int  `json:"reply_at"` // ms after origin at which the client had the whole reply (-1: none)
-	OK      bool `json:"ok"`
-}
-
 type scenario struct {
+	Proto  string     `json:"protocol"`
 	Name   string     `json:"listener"`
 	Addr   string     `json:"-"`
+	Fresh  bool       `json:"short_lived_connection"`
 	Reqs   []*reqPlan `json:"requests"`
 	Signal int        `json:"signal_planned"`
 	SigObs int        `json:"signal_at"`
@@ -182,87 +46,46 @@ type scenario struct {
 	// a NEW connection attempted while the drain was running: refused | served | unserved | not-probed
 	DrainProbe   string `json:"new_connection_in_drain_window"`
 	DrainProbeAt int    `json:"new_connection_at"`
-	Err          string `json:"harness_error,omitempty"`
+	// an exchange on the existing (keep-alive) connection after Shutdown returned: served/failed + what the server announced
+	After     string `json:"exchange_on_existing_connection_after_shutdown,omitempty"`
+	Announced string `json:"server_announced,omitempty"`
+	Err       string `json:"harness_error,omitempty"`
 }
 
-func c11Server(run *Run, dir string) int {
-	r := run.R
-	drain := 300
-	server.SetDrainTime(time.Duration(drain) * time.Millisecond)
+var mosnProto = map[string]string{"bolt": "bolt", "http1": "Http1", "http2": "Http2"}
 
-	nsc := run.N(18, 90)
-	var scs []*scenario
-	var listeners []v2.Listener
-	var rcs []*v2.RouterConfiguration
-	var clusters []v2.Cluster
+// the moment the request becomes a stream (request_active + 1): bolt and HTTP/1 decode a request only when it has
+// arrived completely, HTTP/2 creates the stream on the HEADERS frame
+func decodeAt(proto string, p *reqPlan) int {
+	if proto == "http2" {
+		return p.HdrAt
+	}
+	return p.SentAt
+}
+
+type mosnUnderTest struct {
+	handler types.ConnectionHandler
+	m       *mosn.Mosn
+	closers []func()
+}
+
+// startMOSN builds one in-process MOSN with a listener per scenario (+ extra listeners) and starts it.
+func startMOSN(dir string, scs []*scenario, extra []v2.Listener, extraRouters []*v2.RouterConfiguration, extraClusters []v2.Cluster) (*mosnUnderTest, error) {
+	mu := &mosnUnderTest{}
 	xprotocol.RegisterXProtocolAction(xstream.NewConnPool, xstream.NewStreamFactory, func(codec api.XProtocolCodec) {})
 	if err := xprotocol.RegisterXProtocolCodec(&bolt.XCodec{}); err != nil {
-		fmt.Println("bolt codec registration failed:", err)
-		return 2
+		return nil, fmt.Errorf("bolt codec registration failed: %v", err)
 	}
-	for i := 0; i < nsc; i++ {
-		sc := &scenario{Name: fmt.Sprintf("vh-l%d", i), Addr: fmt.Sprintf("127.0.0.1:%d", freePort()), Drain: drain}
-		nreq := 1
-		if r.Pct(30) {
-			nreq = 2
-		}
-		for k := 0; k < nreq; k++ {
-			p := &reqPlan{T0: k * r.Pick([]int{20, 60, 120}), Recv: r.Pick([]int{0, 0, 80, 140}), Up: r.Pick([]int{60, 120, 200, 260}), Gap: r.Pick([]int{0, 0, 70})}
-			if r.Pct(12) {
-				p.Up = 700 // does not fit into the drain time
-			}
-			if nreq > 1 {
-				p.Gap = 0 // a half-written response would hold back the other response on the shared upstream connection
-			}
-			sc.Reqs = append(sc.Reqs, p)
-		}
-		// signal offset: sweep the lifetime of the first request, sometimes after everything is done
-		p := sc.Reqs[0]
-		done := p.Recv + p.Up + p.Gap
-		switch i % 6 {
-		case 0:
-			if p.Recv == 0 {
-				p.Recv = r.Pick([]int{80, 140})
-				done = p.Recv + p.Up + p.Gap
-			}
-			sc.Signal = r.Intn(p.Recv) // while the request is being received (headers sent, body half sent)
-		case 1, 2:
-			sc.Signal = p.Recv + 10 + r.Intn(max(p.Up-20, 1)) // waiting for the upstream
-		case 3:
-			sc.Signal = p.Recv + p.Up + r.Intn(max(p.Gap, 1)) // reply half written by the upstream
-		case 4:
-			sc.Signal = done + 60 + r.Intn(60) // nothing in flight
-		default:
-			sc.Signal = r.Intn(done + 40)
-		}
-		// keep the signal away from the phase boundaries: there the outcome is a legitimate race
-		for moved := true; moved; {
-			moved = false
-			for _, q := range sc.Reqs {
-				for _, b := range []int{q.T0, q.T0 + q.Recv, q.T0 + q.Recv + q.Up, q.T0 + q.Recv + q.Up + q.Gap} {
-					if d := sc.Signal - b; d > -18 && d < 18 {
-						sc.Signal = b + 18 + r.Intn(8)
-						moved = true
-					}
-				}
-			}
-		}
-		scs = append(scs, sc)
-		// a router and a cluster (hence an upstream connection) of its own per scenario: responses of different
-		// scenarios must not queue behind each other on one multiplexed upstream connection
-		// (MOSN pools upstream connections per host address, so the upstream server is per scenario as well)
-		upAddr, closeUp := startUpstream()
-		defer closeUp()
-		routerName, clusterName := fmt.Sprintf("vh-router-%d", i), fmt.Sprintf("vh-up-%d", i)
-		proxy := &v2.Proxy{DownstreamProtocol: "bolt", UpstreamProtocol: "bolt", RouterConfigName: routerName}
-		rcs = append(rcs, &v2.RouterConfiguration{RouterConfigurationConfig: v2.RouterConfigurationConfig{RouterConfigName: routerName},
-			VirtualHosts: []v2.VirtualHost{{Name: "vh", Domains: []string{"*"}, Routers: []v2.Router{{RouterConfig: v2.RouterConfig{
-				Match: v2.RouterMatch{Headers: []v2.HeaderMatcher{{Name: "service", Value: ".*", Regex: true}}},
-				Route: v2.RouteAction{RouterActionConfig: v2.RouterActionConfig{ClusterName: clusterName}}}}}}}})
-		clusters = append(clusters, v2.Cluster{Name: clusterName, ClusterType: v2.SIMPLE_CLUSTER, LbType: v2.LB_ROUNDROBIN,
-			MaxRequestPerConn: 1024, ConnBufferLimitBytes: 16 * 1024, Hosts: []v2.Host{{HostConfig: v2.HostConfig{Address: upAddr}}}})
-		listeners = append(listeners, v2.Listener{ListenerConfig: v2.ListenerConfig{Name: sc.Name, AddrConfig: sc.Addr, BindToPort: true, Network: "tcp",
-			FilterChains: []v2.FilterChain{{FilterChainConfig: v2.FilterChainConfig{Filters: []v2.Filter{{Type: "proxy", Config: toMap(proxy)}}}}}}})
+	listeners := append([]v2.Listener{}, extra...)
+	rcs := append([]*v2.RouterConfiguration{}, extraRouters...)
+	clusters := append([]v2.Cluster{}, extraClusters...)
+	for i, sc := range scs {
+		// a router, a cluster and an upstream SERVER of its own per scenario: MOSN pools upstream connections per host
+		// address, and responses of different scenarios must not queue behind each other on one multiplexed connection
+		upAddr, closeUp := upstreamFor(sc.Proto)
+		mu.closers = append(mu.closers, closeUp)
+		l, rc, cl := listenerFor(sc.Name, sc.Addr, sc.Proto, fmt.Sprintf("vh-router-%d", i), fmt.Sprintf("vh-up-%d", i), upAddr)
+		listeners, rcs, clusters = append(listeners, l), append(rcs, rc), append(clusters, cl)
 	}
 	logPath, logLevel := "/dev/null", "FATAL"
 	if os.Getenv("VH_LOG") != "" {
@@ -285,11 +108,12 @@ func c11Server(run *Run, dir string) int {
 	m.Init(cfg)
 	mosn.DefaultPreStartStage(m)
 	go m.Start()
+	mu.m = m
 	// wait until the first and the last listener accept
-	for _, sc := range []*scenario{scs[0], scs[len(scs)-1]} {
+	for _, l := range []v2.Listener{listeners[0], listeners[len(listeners)-1]} {
 		okc := false
 		for w := 0; w < 200 && !okc; w++ {
-			if c, err := dialLocal(sc.Addr, 100*time.Millisecond); err == nil {
+			if c, err := dialLocal(l.AddrConfig, 100*time.Millisecond); err == nil {
 				c.Close()
 				okc = true
 			} else {
@@ -297,36 +121,113 @@ func c11Server(run *Run, dir string) int {
 			}
 		}
 		if !okc {
-			fmt.Println("in-process MOSN did not start listening on", sc.Addr)
-			return 2
+			return nil, fmt.Errorf("in-process MOSN did not start listening on %s", l.AddrConfig)
 		}
 	}
-	handler := server.GetServer().Handler()
+	mu.handler = server.GetServer().Handler()
+	return mu, nil
+}
 
-	// warm-up request on a listener of its own?  the first scenario's connection establishes the upstream connection;
-	// give every scenario a warm-up round trip on its own listener so that connection set-up is not part of the timings
+func listenerFor(name, addr, proto, routerName, clusterName, upAddr string) (v2.Listener, *v2.RouterConfiguration, v2.Cluster) {
+	proxy := &v2.Proxy{DownstreamProtocol: mosnProto[proto], UpstreamProtocol: mosnProto[proto], RouterConfigName: routerName}
+	route := v2.RouteAction{RouterActionConfig: v2.RouterActionConfig{ClusterName: clusterName}}
+	rc := &v2.RouterConfiguration{RouterConfigurationConfig: v2.RouterConfigurationConfig{RouterConfigName: routerName},
+		VirtualHosts: []v2.VirtualHost{{Name: "vh", Domains: []string{"*"}, Routers: []v2.Router{
+			{RouterConfig: v2.RouterConfig{Match: v2.RouterMatch{Headers: []v2.HeaderMatcher{{Name: "service", Value: ".*", Regex: true}}}, Route: route}},
+			{RouterConfig: v2.RouterConfig{Match: v2.RouterMatch{Prefix: "/"}, Route: route}}}}}}
+	cl := v2.Cluster{Name: clusterName, ClusterType: v2.SIMPLE_CLUSTER, LbType: v2.LB_ROUNDROBIN,
+		MaxRequestPerConn: 1024, ConnBufferLimitBytes: 16 * 1024, Hosts: []v2.Host{{HostConfig: v2.HostConfig{Address: upAddr}}}}
+	l := v2.Listener{ListenerConfig: v2.ListenerConfig{Name: name, AddrConfig: addr, BindToPort: true, Network: "tcp",
+		FilterChains: []v2.FilterChain{{FilterChainConfig: v2.FilterChainConfig{Filters: []v2.Filter{{Type: "proxy", Config: toMap(proxy)}}}}}}}
+	return l, rc, cl
+}
+
+func c11Server(run *Run, dir string) int {
+	r := run.R
+	drain := 300
+	server.SetDrainTime(time.Duration(drain) * time.Millisecond)
+
+	protos := []string{"bolt", "http1", "http2"}
+	per := run.N(12, 60)
+	var scs []*scenario
+	for _, proto := range protos {
+		for i := 0; i < per; i++ {
+			sc := &scenario{Proto: proto, Name: fmt.Sprintf("vh-%s-%d", proto, i), Addr: fmt.Sprintf("127.0.0.1:%d", freePort()), Drain: drain, Fresh: r.Pct(30)}
+			nreq := 1
+			if r.Pct(25) {
+				nreq = 2
+			}
+			for k := 0; k < nreq; k++ {
+				p := &reqPlan{T0: k * r.Pick([]int{20, 60, 120}), RecvH: r.Pick([]int{0, 0, 60, 110}), RecvB: r.Pick([]int{0, 0, 60, 110}), Up: r.Pick([]int{60, 120, 200, 260}), Gap: r.Pick([]int{0, 0, 70})}
+				if r.Pct(10) {
+					p.Up = 700 // does not fit into the drain time
+				}
+				if nreq > 1 {
+					p.Gap = 0 // a half-written response would hold back the other response on the shared upstream connection
+				}
+				sc.Reqs = append(sc.Reqs, p)
+			}
+			// signal offset: sweep the lifetime of the first request, sometimes after everything is done
+			p := sc.Reqs[0]
+			switch i % 6 {
+			case 0: // headers sent
+				if p.RecvH == 0 {
+					p.RecvH = r.Pick([]int{70, 120})
+				}
+				sc.Signal = 20 + r.Intn(p.RecvH-30)
+			case 1: // body half sent
+				if p.RecvB == 0 {
+					p.RecvB = r.Pick([]int{70, 120})
+				}
+				sc.Signal = p.RecvH + 20 + r.Intn(p.RecvB-30)
+			case 2: // waiting for the upstream
+				sc.Signal = p.RecvH + p.RecvB + 15 + r.Intn(max(p.Up-30, 1))
+			case 3: // response half written by the upstream
+				if p.Gap == 0 && len(sc.Reqs) == 1 {
+					p.Gap = 70
+				}
+				sc.Signal = p.RecvH + p.RecvB + p.Up + 15 + r.Intn(max(p.Gap-30, 1))
+			case 4: // nothing in flight: idle keep-alive connection
+				sc.Signal = p.RecvH + p.RecvB + p.Up + p.Gap + 80 + r.Intn(60)
+				if len(sc.Reqs) > 1 {
+					sc.Reqs = sc.Reqs[:1]
+				}
+				if p.Up > 300 {
+					p.Up = 200
+				}
+				sc.Fresh = false
+			default:
+				sc.Signal = r.Intn(p.RecvH + p.RecvB + p.Up + p.Gap + 40)
+			}
+			scs = append(scs, sc)
+		}
+	}
+	mu, err := startMOSN(dir, scs, nil, nil, nil)
+	if err != nil {
+		fmt.Println(err)
+		return 2
+	}
+	defer func() {
+		for _, c := range mu.closers {
+			c()
+		}
+	}()
+	handler := mu.handler
+
 	runScenario := func(sc *scenario) {
-		conns := make([]net.Conn, len(sc.Reqs))
+		clients := make([]client, len(sc.Reqs))
 		for k := range sc.Reqs {
-			c, err := dialLocal(sc.Addr, time.Second)
+			c, err := newClient(sc.Proto, sc.Addr, time.Second)
 			if err != nil {
 				sc.Err = "dial: " + err.Error()
 				return
 			}
-			conns[k] = c
-			defer c.Close()
-			// warm-up
-			body, _ := json.Marshal(script{Up: 0})
-			c.SetDeadline(time.Now().Add(3 * time.Second))
-			c.Write(boltRequest(uint32(1000+k), body))
-			for {
-				typ, _, id, _, err := readBoltFrame(c)
-				if err != nil {
+			clients[k] = c
+			defer c.close()
+			if !sc.Fresh {
+				if err := c.warmup(); err != nil {
 					sc.Err = "warm-up: " + err.Error()
 					return
-				}
-				if typ == 0 && id == uint32(1000+k) {
-					break
 				}
 			}
 		}
@@ -338,34 +239,9 @@ func c11Server(run *Run, dir string) int {
 			wg.Add(1)
 			go func(k int, p *reqPlan) {
 				defer wg.Done()
-				c := conns[k]
 				p.ReplyAt = -1
 				time.Sleep(time.Until(origin.Add(time.Duration(p.T0) * time.Millisecond)))
-				body, _ := json.Marshal(script{Up: p.Up, Gap: p.Gap})
-				frame := boltRequest(uint32(7+k), body)
-				c.SetDeadline(time.Now().Add(4 * time.Second))
-				if p.Recv > 0 {
-					c.Write(frame[:30])
-					time.Sleep(time.Duration(p.Recv) * time.Millisecond)
-					c.Write(frame[30:])
-				} else {
-					c.Write(frame)
-				}
-				p.SentAt = ms()
-				for {
-					typ, _, id, content, err := readBoltFrame(c)
-					if err != nil {
-						return
-					}
-					if typ == 0 && id == uint32(7+k) {
-						p.ReplyAt = ms()
-						if os.Getenv("VH_TRACE") != "" {
-							fmt.Println("client", sc.Name, k, "reply at", p.ReplyAt, time.Now().Format("05.000"), "origin", origin.Format("05.000"))
-						}
-						p.OK = string(content) == "ok"
-						return
-					}
-				}
+				clients[k].do(7+k, p, ms)
 			}(k, p)
 		}
 		time.Sleep(time.Until(origin.Add(time.Duration(sc.Signal) * time.Millisecond)))
@@ -382,32 +258,24 @@ func c11Server(run *Run, dir string) int {
 		case <-returned:
 		case <-time.After(35 * time.Millisecond):
 			sc.DrainProbeAt = ms()
-			nc, err := dialLocal(sc.Addr, 150*time.Millisecond)
+			nc, err := newClient(sc.Proto, sc.Addr, 150*time.Millisecond)
 			select {
 			case <-returned:
 				// Shutdown returned while we were connecting: not an observation of the drain window
 				if err == nil {
-					nc.Close()
+					nc.close()
 				}
 			default:
 				if err != nil {
 					sc.DrainProbe = "refused"
 				} else {
 					sc.DrainProbe = "unserved"
-					body, _ := json.Marshal(script{})
-					nc.SetDeadline(time.Now().Add(time.Duration(sc.Drain+400) * time.Millisecond))
-					nc.Write(boltRequest(4242, body))
-					for {
-						typ, _, id, _, err := readBoltFrame(nc)
-						if err != nil {
-							break
-						}
-						if typ == 0 && id == 4242 {
-							sc.DrainProbe = "served"
-							break
-						}
+					q := &reqPlan{}
+					nc.do(4242, q, ms)
+					if q.OK {
+						sc.DrainProbe = "served"
 					}
-					nc.Close()
+					nc.close()
 				}
 			}
 		}
@@ -418,9 +286,25 @@ func c11Server(run *Run, dir string) int {
 			c.Close()
 		}
 		wg.Wait()
+		// the existing keep-alive connection after the stop: is it still served, what was it told?
+		if len(sc.Reqs) == 1 && sc.Reqs[0].OK {
+			q := &reqPlan{}
+			clients[0].do(99, q, ms)
+			sc.After = "failed"
+			if q.OK {
+				sc.After = "served"
+			}
+			sc.Announced = clients[0].goneAway()
+			if sc.Announced == "" {
+				sc.Announced = "nothing"
+			}
+			if !q.OK && sc.Announced == "goaway" {
+				sc.After = "declined-by-client-after-goaway"
+			}
+		}
 	}
-	// scenarios in parallel batches (each has its own listener, connections and gauge)
-	batch := 6
+	// scenarios in parallel batches (each has its own listener, connections, upstream and gauge)
+	batch := 9
 	for i := 0; i < len(scs); i += batch {
 		var wg sync.WaitGroup
 		for j := i; j < i+batch && j < len(scs); j++ {
@@ -438,30 +322,42 @@ func c11Server(run *Run, dir string) int {
 			fmt.Println("scenario could not run:", sc.Name, sc.Err)
 			return 2
 		}
-		// the model is fed with the OBSERVED request timings (when the client finished sending, when it had the reply), so
-		// that only the drain loop's own behaviour is compared, not the scheduling noise of the scripted peers
+		// the model is fed with the OBSERVED request timings (when the request became a stream, when the client had the
+		// reply), so that only the drain loop's own behaviour is compared, not the scheduling noise of the scripted peers
 		var rs []string
 		phase := "idle"
 		racy := false
 		sig := sc.SigObs
 		for k, p := range sc.Reqs {
-			sent, done := p.SentAt, p.ReplyAt
-			if done < 0 {
-				done = sent + p.Up + p.Gap
+			if p.ReplyAt < 0 && p.SentAt == 0 && p.HdrAt == 0 && p.FirstAt > sig {
+				// started after the signal and declined by the client itself (HTTP/2 connection that received GOAWAY):
+				// the request never reached MOSN and is no part of the history
+				continue
 			}
-			rs = append(rs, fmt.Sprintf("(mkR %d%%nat %d%%nat %d%%nat 0%%nat)", p.T0, sent-p.T0, done-sent))
-			for _, b := range []int{sent, done} {
+			dec, done := decodeAt(sc.Proto, p), p.ReplyAt
+			if done < 0 {
+				done = p.SentAt + p.Up + p.Gap
+			}
+			if dec < p.T0 {
+				dec = p.T0
+			}
+			rs = append(rs, fmt.Sprintf("(mkR %d%%nat %d%%nat %d%%nat 0%%nat)", p.T0, dec-p.T0, max(done-dec, 0)))
+			for _, b := range []int{dec, done} {
 				if d := sig - b; d > -12 && d < 12 {
 					racy = true // the signal fell on a phase boundary: either outcome is legitimate
 				}
 			}
 			ph := "idle"
 			switch {
-			case sig >= p.T0 && sig < sent:
-				ph = "receiving"
-			case sig >= sent && sig < sent+p.Up && sig < done:
+			case sig < p.FirstAt+3 || (p.SentAt == 0 && p.HdrAt == 0):
+				ph = "idle" // the request was started after the signal (or never left the client): not in flight
+			case sig >= p.FirstAt && sig < p.HalfAt && p.HalfAt > p.FirstAt+5:
+				ph = "headers-sent"
+			case sig >= p.HalfAt && sig < p.SentAt && p.SentAt > p.HalfAt+5:
+				ph = "body-half-sent"
+			case sig >= p.SentAt && sig < p.SentAt+p.Up && sig < done:
 				ph = "waiting-upstream"
-			case sig >= sent && sig < done:
+			case sig >= p.SentAt && sig < done:
 				ph = "reply-half-written"
 			}
 			if k == 0 {
@@ -473,30 +369,37 @@ func c11Server(run *Run, dir string) int {
 			if ph != "idle" && !racy && done-sig <= sc.Drain-margin {
 				switch {
 				case p.ReplyAt < 0 || !p.OK:
-					run.Fail("shutdown:in-flight-request-failed:"+ph, fmt.Sprintf("request %d (phase %s at the signal) got no reply", k, ph), rep)
-				case p.ReplyAt > sc.ExitAt+20 && ph == "receiving":
-					run.Fail("shutdown:returns-while-a-request-is-still-being-received", fmt.Sprintf("Shutdown returned at %d ms, the reply of the request that was half sent when the signal arrived (%d ms) came at %d ms; remaining %d ms <= drain %d ms", sc.ExitAt, sig, p.ReplyAt, done-sig, sc.Drain), rep)
+					run.Fail("shutdown:in-flight-request-failed:"+sc.Proto+":"+ph, fmt.Sprintf("%s request %d (phase %s at the signal) got no reply", sc.Proto, k, ph), rep)
+				case p.ReplyAt > sc.ExitAt+20 && sig < dec:
+					run.Fail("shutdown:returns-while-a-request-is-still-being-received:"+sc.Proto, fmt.Sprintf("%s: Shutdown returned at %d ms, the reply of the request that was partly sent (%s) when the signal arrived (%d ms) came at %d ms; remaining %d ms <= drain %d ms", sc.Proto, sc.ExitAt, ph, sig, p.ReplyAt, done-sig, sc.Drain), rep)
 				case p.ReplyAt > sc.ExitAt+20:
-					run.Fail("shutdown:returns-before-in-flight-reply:"+ph, fmt.Sprintf("Shutdown returned at %d ms, before the reply (%d ms) of a request in phase %s at the signal (%d ms); remaining %d ms <= drain %d ms", sc.ExitAt, p.ReplyAt, ph, sig, done-sig, sc.Drain), rep)
+					run.Fail("shutdown:returns-before-in-flight-reply:"+sc.Proto+":"+ph, fmt.Sprintf("%s: Shutdown returned at %d ms, before the reply (%d ms) of a request in phase %s at the signal (%d ms); remaining %d ms <= drain %d ms", sc.Proto, sc.ExitAt, p.ReplyAt, ph, sig, done-sig, sc.Drain), rep)
 				}
 			}
 		}
 		if sc.DrainProbe == "unserved" {
-			run.Fail("shutdown:connection-established-in-drain-window-never-served", fmt.Sprintf("graceful stop at %d ms with a request in flight; a new client connected at %d ms (Shutdown returned at %d ms): the connection was established but its request was never answered - neither refused nor served", sc.SigObs, sc.DrainProbeAt, sc.ExitAt), map[string]interface{}{"part": "drain", "scenario": sc})
+			run.Fail("shutdown:connection-established-in-drain-window-never-served", fmt.Sprintf("%s: graceful stop at %d ms with a request in flight; a new client connected at %d ms (Shutdown returned at %d ms): the connection was established but its request was never answered - neither refused nor served", sc.Proto, sc.SigObs, sc.DrainProbeAt, sc.ExitAt), map[string]interface{}{"part": "drain", "scenario": sc})
 		}
 		if sc.AccAft {
 			run.Fail("listener:accepted-after-graceful-stop", "a TCP connect succeeded after GracefulStopListener returned", map[string]interface{}{"part": "drain", "scenario": sc})
 		}
 		rep := map[string]interface{}{"part": "drain", "scenario": sc, "phase_at_signal": phase}
-		kinds := []string{"drain-phase=" + phase, fmt.Sprintf("drain-requests=%d", len(sc.Reqs)), "drain-window-new-connection=" + sc.DrainProbe}
+		conn := "long-lived"
+		if sc.Fresh {
+			conn = "short-lived"
+		}
+		kinds := []string{"drain-" + sc.Proto + "-phase=" + phase, fmt.Sprintf("drain-requests=%d", len(sc.Reqs)), "drain-window-new-connection=" + sc.DrainProbe, "drain-connection=" + conn}
+		if sc.After != "" {
+			kinds = append(kinds, fmt.Sprintf("existing-connection-after-shutdown:%s=%s,announced-%s", sc.Proto, sc.After, sc.Announced))
+		}
 		if racy {
 			kinds = append(kinds, "drain-signal-on-boundary-not-compared")
 		}
-		run.Count(fmt.Sprintf("drain|%v|%d", rs, sc.Signal), phase != "idle", kinds...)
+		run.Count(fmt.Sprintf("drain|%s|%v|%d", sc.Proto, rs, sc.Signal), phase != "idle", kinds...)
 		if !racy {
 			sh.Add(fmt.Sprintf("(%s, %d%%nat, %d%%nat, 10%%nat, %d%%nat, %d%%nat)", CoqList(rs), sig, sc.Drain, tol, sc.ExitAt), rep)
 		}
-		if phase == "waiting-upstream" {
+		if phase == "waiting-upstream" || phase == "body-half-sent" {
 			run.Sample(rep)
 		}
 	}
@@ -510,3 +413,5 @@ func max(a, b int) int {
 	}
 	return b
 }
+
+var _ = net.Dial
